@@ -393,8 +393,8 @@ def get_edges(blocks, first_edge=0, polarity=0, analyse=False):
         edges.pop()
         if analysis:
             analysis.pop()
-        if data_blocks:
-            data_blocks[-1].adjust(len(edges) - 1)
+        for data_block in data_blocks:
+            data_block.adjust(len(edges) - 1)
 
     for line in analysis:
         print(line)
